@@ -1,4 +1,369 @@
-import Tfv.Model
+import Tfv.Proofs.SchedRun
+/-!
+# C18 — order-independence of constraint re-checking: what holds, and what does not
+
+The property as stated ("the outcome of an application is the same for every order in which the constraints
+attached to a variable are re-checked") is FALSE of the implementation and of the model; the counterexamples
+at the end of this file are checked by the kernel. What is proved:
+
+1. `sched_id …`: the scheduled engine (`InferSched.lean`) under the identity schedule IS the model
+   (`Infer.lean`), function by function, for every fuel; `C18_model_is_creation_order`: so is the scheduled
+   engine under `priorityOrd []`, because the model keeps its constraint sets in creation order.
+2. `C18_partial`: two schedules that agree on every constraint set that can occur give the same engine;
+   instances: no pending constraints, at most one pending constraint, fulfilled elimination constraints.
+3. Counterexamples: the error kind, success versus failure, and the resulting type all depend on the order.
+
+`Tfv.C18P.runS L ord fuel s args` instantiates the schema `s` in the empty store and applies the instance to
+the closed arguments `args` in turn (the run of the differential harness); `Tfv.C18P.run` is the same run of
+the unscheduled model.
+-/
 namespace Tfv.C18
-theorem placeholder : True := trivial
+open Tfv.C18P
+
+/-! ## 1. the tie between the scheduled engine and the model -/
+
+/-- Under a schedule that returns its argument, each of the twelve mutually recursive functions of the
+scheduled engine equals the function of the model it was generated from, at every fuel. -/
+theorem sched_id {L : Lang} {ord : List Nat → List Nat} (hord : ∀ cs, ord cs = cs) (n : Nat) :
+    BlockEq L ord n := blockEq hord n
+
+example : ∀ cs : List Nat, id cs = cs := fun _ => rfl
+example : ∀ cs : List Nat, priorityOrd [] (priorityOrd [] cs) = priorityOrd [] cs := fun cs =>
+  priorityOrd_of_sorted (priorityOrd_sorted [] cs)
+
+/-- `unify` under the identity schedule is the model's `unify`. -/
+theorem sched_id_unify (L : Lang) (n : Nat) (σ : Store) (a b : Term) (st sb sw : Bool) :
+    unifyS L id n σ a b st sb sw = unify L n σ a b st sb sw :=
+  (blockEq (fun _ => rfl) n).unify σ a b st sb sw
+
+/-- `unifyList` under the identity schedule. -/
+theorem sched_id_unifyList (L : Lang) (n : Nat) (σ : Store) (vs : List Bool) (xs ys : List Term) (st sb sw : Bool) :
+    unifyListS L id n σ vs xs ys st sb sw = unifyList L n σ vs xs ys st sb sw :=
+  (blockEq (fun _ => rfl) n).unifyList σ vs xs ys st sb sw
+
+/-- `bind` under the identity schedule. -/
+theorem sched_id_bind (L : Lang) (n : Nat) (σ : Store) (v : Nat) (t : Term) :
+    bindS L id n σ v t = bind L n σ v t := (blockEq (fun _ => rfl) n).bind σ v t
+
+/-- `above` under the identity schedule. -/
+theorem sched_id_above (L : Lang) (n : Nat) (σ : Store) (v o : Nat) :
+    aboveS L id n σ v o = above L n σ v o := (blockEq (fun _ => rfl) n).above σ v o
+
+/-- `below` under the identity schedule. -/
+theorem sched_id_below (L : Lang) (n : Nat) (σ : Store) (v o : Nat) :
+    belowS L id n σ v o = below L n σ v o := (blockEq (fun _ => rfl) n).below σ v o
+
+/-- `checkConstraints` under the identity schedule (the only function whose text differs). -/
+theorem sched_id_checkConstraints (L : Lang) (n : Nat) (σ : Store) (v : Nat) :
+    checkConstraintsS L id n σ v = checkConstraints L n σ v := (blockEq (fun _ => rfl) n).checkConstraints σ v
+
+/-- `checkList` under the identity schedule. -/
+theorem sched_id_checkList (L : Lang) (n : Nat) (σ : Store) (v : Nat) (cs : List Nat) :
+    checkListS L id n σ v cs = checkList L n σ v cs := (blockEq (fun _ => rfl) n).checkList σ v cs
+
+/-- `fulfill` under the identity schedule. -/
+theorem sched_id_fulfill (L : Lang) (n : Nat) (σ : Store) (c : Nat) :
+    fulfillS L id n σ c = fulfill L n σ c := (blockEq (fun _ => rfl) n).fulfill σ c
+
+/-- `minimize` under the identity schedule. -/
+theorem sched_id_minimize (L : Lang) (n : Nat) (σ : Store) (c : Nat) :
+    minimizeS L id n σ c = minimize L n σ c := (blockEq (fun _ => rfl) n).minimize σ c
+
+/-- `minLoop` under the identity schedule. -/
+theorem sched_id_minLoop (L : Lang) (n : Nat) (σ : Store) (alts acc : List Term) :
+    minLoopS L id n σ alts acc = minLoop L n σ alts acc := (blockEq (fun _ => rfl) n).minLoop σ alts acc
+
+/-- `fix` under the identity schedule. -/
+theorem sched_id_fix (L : Lang) (n : Nat) (σ : Store) (t : Term) (pl : Bool) :
+    fixS L id n σ t pl = fix L n σ t pl := (blockEq (fun _ => rfl) n).fix σ t pl
+
+/-- `fixList` under the identity schedule. -/
+theorem sched_id_fixList (L : Lang) (n : Nat) (σ : Store) (vs : List Bool) (ps : List Term) (pl : Bool) :
+    fixListS L id n σ vs ps pl = fixList L n σ vs ps pl := (blockEq (fun _ => rfl) n).fixList σ vs ps pl
+
+/-- Registering a constraint under a schedule that returns its argument is the model's `addConstraint`. -/
+theorem sched_id_addConstraint {L : Lang} {ord : List Nat → List Nat} (hord : ∀ cs, ord cs = cs)
+    (fuel : Nat) (σ : Store) (c : Constr) :
+    addConstraintS L ord fuel σ c = addConstraint L fuel σ c := addConstraintS_id hord fuel σ c
+
+/-- The same for a list of constraints. -/
+theorem sched_id_addConstraints {L : Lang} {ord : List Nat → List Nat} (hord : ∀ cs, ord cs = cs)
+    (fuel base : Nat) (σ : Store) (cs : List CAst) :
+    addConstraintsS L ord fuel base σ cs = addConstraints L fuel base σ cs :=
+  addConstraintsS_id hord fuel base σ cs
+
+/-- Instantiating a schema under a schedule that returns its argument is the model's `instantiate`. -/
+theorem sched_id_instantiate {L : Lang} {ord : List Nat → List Nat} (hord : ∀ cs, ord cs = cs)
+    (fuel : Nat) (σ : Store) (s : Schema) :
+    instantiateS L ord fuel σ s = instantiate L fuel σ s := instantiateS_id hord fuel σ s
+
+/-- Applying a function type under a schedule that returns its argument is the model's `applyT`. -/
+theorem sched_id_applyT {L : Lang} {ord : List Nat → List Nat} (hord : ∀ cs, ord cs = cs)
+    (fuel : Nat) (σ : Store) (f x : Term) (fixFlag : Bool) :
+    applyTS L ord fuel σ f x fixFlag = applyT L fuel σ f x fixFlag := applyTS_id hord fuel σ f x fixFlag
+
+/-- A whole run under a schedule that returns its argument is the model's run. -/
+theorem sched_id_run {L : Lang} {ord : List Nat → List Nat} (hord : ∀ cs, ord cs = cs)
+    (fuel : Nat) (s : Schema) (args : List Term) :
+    runS L ord fuel s args = run L fuel s args := runS_id hord fuel s args
+
+/-- The engine depends on the schedule only through its values: extensionally equal schedules give the
+same engine. -/
+theorem sched_ext (L : Lang) {ord₁ ord₂ : List Nat → List Nat} (h : ∀ cs, ord₁ cs = ord₂ cs) :
+    unifyS L ord₁ = unifyS L ord₂ ∧ fixS L ord₁ = fixS L ord₂ ∧ instantiateS L ord₁ = instantiateS L ord₂ ∧
+      applyTS L ord₁ = applyTS L ord₂ := by
+  have e : ord₁ = ord₂ := funext h
+  subst e
+  exact ⟨rfl, rfl, rfl, rfl⟩
+
+example : ∀ cs, priorityOrd [1, 0] cs = insOrd [1, 0] cs := priorityOrd_eq_insOrd [1, 0]
+
+/-! ## the schedules `priorityOrd perm` -/
+
+/-- `priorityOrd perm cs` is a rearrangement of `cs`. -/
+theorem C18_priority_perm (perm cs : List Nat) : (priorityOrd perm cs).Perm cs := priorityOrd_perm perm cs
+
+/-- Without priorities the schedule is creation order: an ascending list is left alone. -/
+theorem C18_priority_nil {cs : List Nat} (h : cs.Pairwise (· ≤ ·)) : priorityOrd [] cs = cs :=
+  priorityOrd_nil_of_sorted h
+
+example : [0, 2, 5].Pairwise (· ≤ ·) := by decide
+
+/-- Every `priorityOrd perm` leaves lists with at most one element alone. -/
+theorem C18_priority_short (perm : List Nat) {cs : List Nat} (h : cs.length ≤ 1) : priorityOrd perm cs = cs :=
+  priorityOrd_short perm h
+
+/-- `priorityOrd` (defined with the library merge sort) is insertion sort by rank; this is the form the kernel
+evaluates in the counterexamples. -/
+theorem C18_priority_insertion (perm cs : List Nat) : priorityOrd perm cs = insOrd perm cs :=
+  priorityOrd_eq_insOrd perm cs
+
+/-- The model keeps its constraint sets strictly ascending: the three operations it performs on them preserve
+that, and so does registering a constraint. -/
+theorem C18_csets_stay_sorted : CsClosed Asc ∧ CsInsert Asc := ⟨closed_asc, insert_asc⟩
+
+/-- On a store whose constraint sets are ascending, the scheduled engine without priorities is the model,
+and the constraint sets of the result are ascending again. -/
+theorem C18_priority_nil_unify (L : Lang) (n : Nat) {σ : Store} (h : CsInv Asc σ) (a b : Term) (st sb sw : Bool) :
+    unifyS L (priorityOrd []) n σ a b st sb sw = unify L n σ a b st sb sw ∧
+      ∀ σ', unify L n σ a b st sb sw = .ok σ' → CsInv Asc σ' :=
+  unifyS_eq_of_inv closed_asc priorityOrd_nil_asc n h a b st sb sw
+
+/-- two variables sharing the constraint set `{0, 2}` -/
+def ascStore : Store :=
+  { vars := [{ cset := 0 }, { cset := 0 }], csets := [[0, 2]], constrs := [.sub (.var 0) (.app 5 []) false false, .sub (.var 0) (.app 5 []) false true, .elim (.var 1) [.app 5 [], .app 6 []] false] }
+
+example : CsInv Asc ascStore := by
+  intro k
+  match k with
+  | 0 => show [0, 2].Pairwise (· < ·); decide
+  | k+1 => exact List.Pairwise.nil
+
+/-- THE TIE for the schedule the harness uses as its baseline: a whole run under `priorityOrd []` (no
+priorities) is the run of the model. -/
+theorem C18_model_is_creation_order (L : Lang) (fuel : Nat) (s : Schema) (args : List Term) :
+    runS L (priorityOrd []) fuel s args = run L fuel s args := runS_priority_nil L fuel s args
+
+/-! ## 2. order-independent fragments -/
+
+/-- THE PARTIAL THEOREM. Let `Q` be a property of constraint sets that holds of the empty set and is kept by
+union, by removing a member and by inserting a member. If two schedules agree on every list satisfying `Q`,
+the two runs are equal (outcome, store and all). -/
+theorem C18_partial {Q : List Nat → Prop} {L : Lang} {ord₁ ord₂ : List Nat → List Nat} (hQ : CsClosed Q)
+    (hI : CsInsert Q) (hord : ∀ cs, Q cs → ord₁ cs = ord₂ cs) (fuel : Nat) (s : Schema) (args : List Term) :
+    runS L ord₁ fuel s args = runS L ord₂ fuel s args := runS_agree hQ hI hord fuel s args
+
+example : CsClosed Asc ∧ CsInsert Asc ∧ ∀ cs, Asc cs → priorityOrd [] cs = id cs :=
+  ⟨closed_asc, insert_asc, priorityOrd_nil_asc⟩
+
+/-- The same inside the engine: on a store all of whose constraint sets satisfy `Q`, all twelve functions of
+the two scheduled engines agree and keep the invariant (`BlockAgree` lists the twelve statements). -/
+theorem C18_partial_block {Q : List Nat → Prop} {L : Lang} {ord₁ ord₂ : List Nat → List Nat} (hQ : CsClosed Q)
+    (hord : ∀ cs, Q cs → ord₁ cs = ord₂ cs) (n : Nat) : BlockAgree L ord₁ ord₂ Q n := blockAgree hQ hord n
+
+/-- Without pending constraints the schedule is unobservable: `unify` (with any flags) under any schedule
+that maps `[]` to `[]` is the model's `unify`, and no constraints appear. -/
+theorem C18_no_constraints (L : Lang) {ord : List Nat → List Nat} (h0 : ord [] = []) (n : Nat) {σ : Store}
+    (nc : NoConstraints σ) (a b : Term) (st sb sw : Bool) :
+    unifyS L ord n σ a b st sb sw = unify L n σ a b st sb sw ∧
+      ∀ σ', unify L n σ a b st sb sw = .ok σ' → NoConstraints σ' :=
+  unifyS_eq_of_inv closed_nil (fun cs h => by subst h; exact h0) n ((csInv_nil_iff σ).mpr nc) a b st sb sw
+
+example : NoConstraints { vars := [{ cset := 0 }, { cset := 1, lower := some 5 }], csets := [[], []] } ∧
+    priorityOrd [1, 0] [] = [] := by
+  refine ⟨fun k => ?_, priorityOrd_short _ (by decide)⟩
+  match k with
+  | 0 => rfl
+  | 1 => rfl
+  | k+2 => rfl
+
+/-- The same for `fix`. -/
+theorem C18_no_constraints_fix (L : Lang) {ord : List Nat → List Nat} (h0 : ord [] = []) (n : Nat) {σ : Store}
+    (nc : NoConstraints σ) (t : Term) (pl : Bool) :
+    fixS L ord n σ t pl = fix L n σ t pl ∧ ∀ σ' t', fix L n σ t pl = .ok (σ', t') → NoConstraints σ' :=
+  fixS_eq_of_inv closed_nil (fun cs h => by subst h; exact h0) n ((csInv_nil_iff σ).mpr nc) t pl
+
+/-- The same for `applyT`. -/
+theorem C18_no_constraints_applyT (L : Lang) {ord : List Nat → List Nat} (h0 : ord [] = []) (fuel : Nat)
+    {σ : Store} (nc : NoConstraints σ) (f x : Term) (fixFlag : Bool) :
+    applyTS L ord fuel σ f x fixFlag = applyT L fuel σ f x fixFlag ∧
+      ∀ σ' t', applyT L fuel σ f x fixFlag = .ok (σ', t') → NoConstraints σ' :=
+  applyTS_eq_of_inv closed_nil (fun cs h => by subst h; exact h0) fuel ((csInv_nil_iff σ).mpr nc) f x fixFlag
+
+/-- A schema without constraints runs the same under every schedule that maps `[]` to `[]`. -/
+theorem C18_no_constraints_run (L : Lang) {ord : List Nat → List Nat} (h0 : ord [] = []) (fuel : Nat)
+    (s : Schema) (hs : s.constraints = []) (args : List Term) :
+    runS L ord fuel s args = run L fuel s args := runS_no_constraints h0 fuel s hs args
+
+example : (⟨1, 0, .app 4 [.var 0, .var 0], []⟩ : Schema).constraints = [] := rfl
+
+/-- One pending constraint: if every constraint set of the store is empty or holds exactly the constraint
+`c0`, then under every schedule that leaves `[]` and `[c0]` alone `unify` is the model's `unify`, and the
+invariant is kept. -/
+theorem C18_single_pending (L : Lang) {ord : List Nat → List Nat} (c0 : Nat) (h0 : ord [] = [])
+    (h1 : ord [c0] = [c0]) (n : Nat) {σ : Store} (hσ : CsInv (AtMost c0) σ) (a b : Term) (st sb sw : Bool) :
+    unifyS L ord n σ a b st sb sw = unify L n σ a b st sb sw ∧
+      ∀ σ', unify L n σ a b st sb sw = .ok σ' → CsInv (AtMost c0) σ' :=
+  unifyS_eq_of_inv (closed_atMost c0)
+    (fun cs h => by rcases h with rfl | rfl; exact h0; exact h1) n hσ a b st sb sw
+
+/-- The static form: a store with at most one registered constraint, whose constraint sets are duplicate-free
+and mention registered constraints only. Every schedule that leaves lists of length ≤ 1 alone (every
+`priorityOrd perm` does) gives the model's `unify`, `fix` and `applyT`. -/
+theorem C18_single_constraint (L : Lang) {ord : List Nat → List Nat} (hord : ∀ cs, cs.length ≤ 1 → ord cs = cs)
+    {σ : Store} (h1 : σ.constrs.length ≤ 1) (hmem : ∀ k c, c ∈ getCset σ k → c < σ.constrs.length)
+    (hnd : ∀ k, (getCset σ k).Nodup) (n : Nat) :
+    (∀ a b st sb sw, unifyS L ord n σ a b st sb sw = unify L n σ a b st sb sw) ∧
+    (∀ t pl, fixS L ord n σ t pl = fix L n σ t pl) ∧
+    (∀ f x fixFlag, applyTS L ord n σ f x fixFlag = applyT L n σ f x fixFlag) := by
+  have hinv := atMost_of_static h1 hmem hnd
+  have ho : ∀ cs, AtMost 0 cs → ord cs = cs := fun cs h => hord cs (atMost_length h)
+  exact ⟨fun a b st sb sw => (unifyS_eq_of_inv (closed_atMost 0) ho n hinv a b st sb sw).1,
+    fun t pl => (fixS_eq_of_inv (closed_atMost 0) ho n hinv t pl).1,
+    fun f x ff => (applyTS_eq_of_inv (closed_atMost 0) ho n hinv f x ff).1⟩
+
+/-- a store with one variable and one pending constraint `x <= A` -/
+def oneConstraintStore : Store :=
+  { vars := [{ cset := 0 }], csets := [[0]], constrs := [.sub (.var 0) (.app 5 []) false false] }
+
+example : oneConstraintStore.constrs.length ≤ 1 ∧
+    (∀ k c, c ∈ getCset oneConstraintStore k → c < oneConstraintStore.constrs.length) ∧
+    (∀ k, (getCset oneConstraintStore k).Nodup) ∧
+    (∀ cs : List Nat, cs.length ≤ 1 → priorityOrd [3, 0, 1] cs = cs) := by
+  refine ⟨by decide, ?_, ?_, fun cs h => priorityOrd_short _ h⟩
+  · intro k c hc
+    match k with
+    | 0 => have : c = 0 := by simpa [oneConstraintStore, getCset] using hc
+           subst this; decide
+    | k+1 => simp [oneConstraintStore, getCset] at hc
+  · intro k
+    match k with
+    | 0 => show [0].Nodup; decide
+    | k+1 => show ([] : List Nat).Nodup; exact List.nodup_nil
+
+/-- A schema with at most one constraint runs the same under every schedule that leaves `[]` and `[0]`
+alone, in particular under every `priorityOrd perm`. -/
+theorem C18_single_constraint_run (L : Lang) {ord : List Nat → List Nat} (h0 : ord [] = []) (h1 : ord [0] = [0])
+    (fuel : Nat) (s : Schema) (hs : s.constraints.length ≤ 1) (args : List Term) :
+    runS L ord fuel s args = run L fuel s args := runS_single_constraint h0 h1 fuel s hs args
+
+example : (⟨1, 0, .app 4 [.var 0, .var 0], [.elim (.var 0) [.app 5 [], .app 6 []]]⟩ : Schema).constraints.length ≤ 1 ∧
+    priorityOrd [4, 0] [] = [] ∧ priorityOrd [4, 0] [0] = [0] :=
+  ⟨by decide, priorityOrd_short _ (by decide), priorityOrd_short _ (by decide)⟩
+
+/- such a run does real work: `x ** x [x << [A, B]]` applied to `A` succeeds with result `A`,
+applied to `F(A)` it fails with `ConstraintViolation` -/
+example : resultIs (runS langAB (priorityOrd [4, 0]) 4000
+    ⟨1, 0, .app 4 [.var 0, .var 0], [.elim (.var 0) [.app 5 [], .app 6 []]]⟩ [.app 5 []]) (.app 5 []) = true := by
+  rw [runS_eq_runK]; decide +kernel
+example : errOf (runS langAB (priorityOrd [4, 0]) 4000
+    ⟨1, 0, .app 4 [.var 0, .var 0], [.elim (.var 0) [.app 5 [], .app 6 []]]⟩ [.app 7 [.app 5 []]])
+    = some .constraintViolation := by
+  rw [runS_eq_runK]; decide +kernel
+
+/-- A fulfilled elimination constraint is not re-examined: `fulfill` returns the store unchanged. -/
+theorem C18_fulfilled_noop (L : Lang) (ord : List Nat → List Nat) (n : Nat) {σ : Store} {c : Nat} {r : Term}
+    {alts : List Term} (h : getConstr σ c = .elim r alts true) :
+    fulfillS L ord (n+1) σ c = .ok (σ, true) := fulfillS_fulfilled L ord n h
+
+example : getConstr { constrs := [.elim (.var 0) [.app 5 []] true] } 0 = .elim (.var 0) [.app 5 []] true := rfl
+
+/-- Re-checking a list that starts with a fulfilled elimination constraint only drops that constraint from
+the variable's constraint set. -/
+theorem C18_fulfilled_skip (L : Lang) (ord : List Nat → List Nat) (n : Nat) {σ : Store} (v : Nat) {c : Nat}
+    (cs : List Nat) {r : Term} {alts : List Term} (h : getConstr σ c = .elim r alts true) :
+    checkListS L ord (n+2) σ v (c :: cs) = checkListS L ord (n+1) (dropFrom σ v c) v cs :=
+  checkListS_fulfilled L ord n v cs h
+
+/-- Two fulfilled elimination constraints that a schedule puts next to each other can be swapped. -/
+theorem C18_fulfilled_swap (L : Lang) (ord : List Nat → List Nat) (n : Nat) {σ : Store} (v : Nat) {c d : Nat}
+    (cs : List Nat) {rc rd : Term} {ac ad : List Term}
+    (hc : getConstr σ c = .elim rc ac true) (hd : getConstr σ d = .elim rd ad true) :
+    checkListS L ord (n+3) σ v (c :: d :: cs) = checkListS L ord (n+3) σ v (d :: c :: cs) :=
+  checkListS_fulfilled_swap L ord n v cs hc hd
+
+/-! ## 3. counterexamples to the general statement (kernel-checked) -/
+
+/-- WHICH ERROR is raised depends on the order. Language: `A`, `B` unrelated, `F` unary. The schema
+`x ** x [x << [A, B], x <= A]` applied to `F(B)` violates both constraints; re-checking the elimination
+constraint first reports `ConstraintViolation`, re-checking the subtype constraint first reports
+`TypeMismatch`. -/
+theorem C18_counterexample_error_kind :
+    errOf (runS langAB (priorityOrd [0, 1]) 4000 schemaTwo [.app 7 [.app 6 []]]) = some .constraintViolation ∧
+    errOf (runS langAB (priorityOrd [1, 0]) 4000 schemaTwo [.app 7 [.app 6 []]]) = some .typeMismatch :=
+  ⟨cex_two_01, cex_two_10⟩
+
+/-- The implementation's witness schema `x ** y ** G(x, y) [x << [A, F(y)], y << [B, F(x)], x <= A]`:
+applied to `B` the model reports `ConstraintViolation` under all six orders, applied to `F(A)` the error
+kind depends on the order. -/
+theorem C18_counterexample_error_kind_witness :
+    errOf (runS langAB (priorityOrd [0, 1, 2]) 4000 schemaThree [.app 7 [.app 5 []]]) = some .constraintViolation ∧
+    errOf (runS langAB (priorityOrd [0, 2, 1]) 4000 schemaThree [.app 7 [.app 5 []]]) = some .typeMismatch :=
+  ⟨cex_three_012, cex_three_021⟩
+
+/-- The witness schema applied to `B` (the implementation's witness as reported): in the model all six orders
+report the same error. -/
+theorem C18_witness_B_same_error : ∀ p ∈ perms3,
+    errOf (runS langAB (priorityOrd p) 4000 schemaThree [.app 6 []]) = some .constraintViolation := cex_three_B
+
+/-- SUCCESS OR FAILURE depends on the order (the implementation's witness: `minimize()` fixes
+self-referential alternatives). Language `A`, `B < A`, `F` contravariant in both places; schema
+`B ** F(x, x) ** x ** F(x, _) [x << [B, F(B, B)], x << [F(x, _), F(_, _), F(A, x), B]]` applied to `B`, then
+`F(A, A)`. -/
+theorem C18_counterexample_result :
+    isOk (runS langSub (priorityOrd [0, 1]) 4000 schemaRes argsRes) = true ∧
+    errOf (runS langSub (priorityOrd [1, 0]) 4000 schemaRes argsRes) = some .constraintViolation :=
+  ⟨cex_res_01, cex_res_10⟩
+
+/-- THE RESULTING TYPE depends on the order.
+Language `A`, `B < A`, `C < A`, `F` covariant, `G` contravariant-covariant; schema
+`y ** A ** G(x, C) [y << [A, G(B, x)], y << [F(C), B, x], y << [G(B, A), A]]` applied to `C`, then `B`:
+`G(A, C)` under (0,1,2), `G(C, C)` under (1,0,2) and under (2,1,0). (Before `bind` was repaired to hand the
+bounds of a variable over through `unify`, order (2,1,0) tripped `below: assert not self.bound`.) -/
+theorem C18_counterexample_result_type :
+    resultIs (runS langABC (priorityOrd [0, 1, 2]) 4000 schemaType argsType) (.app 9 [.app 5 [], .app 7 []]) = true ∧
+    resultIs (runS langABC (priorityOrd [1, 0, 2]) 4000 schemaType argsType) (.app 9 [.app 7 [], .app 7 []]) = true ∧
+    resultIs (runS langABC (priorityOrd [2, 1, 0]) 4000 schemaType argsType) (.app 9 [.app 7 [], .app 7 []]) = true :=
+  ⟨cex_type_012, cex_type_102, cex_type_210⟩
+
+/- all six orders of the three constraints: three give `G(A, C)`, three give `G(C, C)`, none fails -/
+example :
+    (∀ p ∈ [[0, 1, 2], [0, 2, 1], [2, 0, 1]],
+      resultIs (runS langABC (priorityOrd p) 4000 schemaType argsType) (.app 9 [.app 5 [], .app 7 []]) = true) ∧
+    (∀ p ∈ [[1, 0, 2], [1, 2, 0], [2, 1, 0]],
+      resultIs (runS langABC (priorityOrd p) 4000 schemaType argsType) (.app 9 [.app 7 [], .app 7 []]) = true) :=
+  cex_type_all
+
+/-- The general statement is false: it is not the case that all schedules that merely rearrange the pending
+constraints give runs with the same error (let alone the same outcome). -/
+theorem C18_general_false :
+    ¬ (∀ (L : Lang) (ord₁ ord₂ : List Nat → List Nat) (fuel : Nat) (s : Schema) (args : List Term),
+        (∀ cs, (ord₁ cs).Perm cs) → (∀ cs, (ord₂ cs).Perm cs) →
+        errOf (runS L ord₁ fuel s args) = errOf (runS L ord₂ fuel s args)) := by
+  intro h
+  have e := h langAB (priorityOrd [0, 1]) (priorityOrd [1, 0]) 4000 schemaTwo [.app 7 [.app 6 []]]
+    (priorityOrd_perm _) (priorityOrd_perm _)
+  rw [cex_two_01, cex_two_10] at e
+  exact absurd e (by decide)
+
 end Tfv.C18
